@@ -833,6 +833,15 @@ orc_compiler_rewrite_insns (OrcCompiler *compiler)
     OrcInstruction insn;
     OrcInstruction *xinsn;
 
+    if (compiler->error) return;
+    if (compiler->n_insns + ORC_STATIC_OPCODE_N_SRC + 1 +
+        ORC_STATIC_OPCODE_N_DEST > ORC_N_INSNS) {
+      orc_compiler_error (compiler,
+          "too many instructions after inserting loads and stores");
+      compiler->result = ORC_COMPILE_RESULT_UNKNOWN_COMPILE;
+      return;
+    }
+
     memcpy (&insn, program->insns + j, sizeof(OrcInstruction));
     opcode = insn.opcode;
 
@@ -1277,6 +1286,12 @@ orc_compiler_dup_temporary (OrcCompiler *compiler, int var, int j)
 {
   int i = ORC_VAR_T1 + compiler->n_temp_vars + compiler->n_dup_vars;
 
+  if (i >= ORC_N_COMPILER_VARIABLES) {
+    orc_compiler_error (compiler, "too many temporary variables");
+    compiler->result = ORC_COMPILE_RESULT_UNKNOWN_COMPILE;
+    return var;
+  }
+
   compiler->vars[i].vartype = ORC_VAR_TYPE_TEMP;
   compiler->vars[i].size = compiler->vars[var].size;
   compiler->vars[i].name = orc_malloc (strlen(compiler->vars[var].name) + 10);
@@ -1290,6 +1305,13 @@ static int
 orc_compiler_new_temporary (OrcCompiler *compiler, int size)
 {
   int i = ORC_VAR_T1 + compiler->n_temp_vars + compiler->n_dup_vars;
+
+  if (i >= ORC_N_COMPILER_VARIABLES) {
+    /* hand back the last slot again: the compile is abandoned anyway */
+    orc_compiler_error (compiler, "too many temporary variables");
+    compiler->result = ORC_COMPILE_RESULT_UNKNOWN_COMPILE;
+    return ORC_N_COMPILER_VARIABLES - 1;
+  }
 
   compiler->vars[i].vartype = ORC_VAR_TYPE_TEMP;
   compiler->vars[i].size = size;
